@@ -483,6 +483,17 @@ fn c08_enforce(eng: &mut crate::engine::Engine, xs: &mut ExtraState, outs: &[Ste
         }
         if let Some(o) = &outsider {
             lines.push((o.clone(), format!("PRIVMSG {} :enforcement probe from outside", ch)));
+            lines.push((o.clone(), format!("NOTICE {} :enforcement notice from outside", ch)));
+        }
+        if let Some(m) = &plain_member {
+            lines.push((m.clone(), format!("NOTICE {} :enforcement notice", ch)));
+        }
+    }
+    // bans and exceptions govern speaking too (PRIVMSG and NOTICE alike)
+    if applied.contains('b') || applied.contains('e') {
+        for who in co.members.keys().filter(|n| !co.members[*n].any()).take(2) {
+            lines.push((who.clone(), format!("PRIVMSG {} :am I banned?", ch)));
+            lines.push((who.clone(), format!("NOTICE {} :am I banned?", ch)));
         }
     }
     if applied.contains('t') {
@@ -565,7 +576,7 @@ fn c09_build(cfg: &[u16]) -> Built {
 fn c09_owns(d: &Disc, out: &StepOut, _t: &Trace) -> bool {
     ["KICK", "TOPIC", "INVITE", "JOIN"].contains(&out.ctx.as_str())
         && not_panic(d)
-        && probe_codes(d, out, &["353", "352", "319", "332", "331", "322"])
+        && probe_codes(d, out, &["353", "352", "319", "332", "331", "322", "324"])
 }
 
 fn c09_nontrivial(t: &Trace) -> Option<String> {
